@@ -376,6 +376,11 @@ def build(tier, repo):
     chk.note_analysed("refusals_in_edit_operations", mr.validate_then_mutate_rule(r9, w))
     chk.note_analysed("loops_with_list_mutation", mr.iterate_and_mutate_rule(r9, w))
     r9.require(4)
+    from .. import w7_rules as w7
+    r10 = chk.rule("C13-R10", "loops that update the per-variable bookkeeping table take their variables from .variables(), not from the linear coefficients alone",
+                   "variables() lists every variable of the objective and the constraints, those inside max/min/abs terms included")
+    chk.note_analysed("bookkeeping_update_loops", w7.bookkeeping_source_rule(r10, w.mods["modeling"].tree, "modeling.py"))
+    r10.require(4)
     return chk
 
 
